@@ -66,6 +66,22 @@ CHECKS.update({
         "DESIGN.md §2 C10",
     ),
 })
+CHECKS.update({
+    "C09": (
+        "fault_enumeration",
+        "Hypothesis-enumerated faults (kind x chunk position x site x worker count) in sequential, harness-scheduled and real multiprocessing modes; outcome oracle (raises | exact catalog), structural deadlock detection, byte-identity of pre-existing paths",
+        "Fault enumeration: every listed fault kind is injected at first/middle/last chunk, in reader, worker and writer, for 1-3 workers; the multiprocessing shim detects 'parent joins a writer waiting on an empty queue' structurally (no clock), a real-pool subset is run isolated with CPU-progress hang detection. The oracle classifies the outcome and inspects the disk afterwards.",
+        "shim fidelity; real-pool hang = no CPU progress for 6 s after 20 s; read-only locations not enumerated (root)",
+        "DESIGN.md §2 C09",
+    ),
+    "C12": (
+        "exploration",
+        "Hypothesis generated scenes through all patch modes; metadata recomputed from stored records; centre-order and partition round trip; deliberately inconsistent catalog pairs must be refused",
+        "Generated-input search over scenes, centre orders, centres without objects, single-object patches and displaced/permuted/missing patches; oracle recomputes every metadata item from the stored records with independent geometry and requires measurements to raise for inconsistent pairs.",
+        "only the must-raise direction is asserted for inconsistent pairs; radius tolerance 1e-9 (+ chord conditioning near the antipode)",
+        "DESIGN.md §2 C12",
+    ),
+})
 NOT_YET = {}
 
 props = [json.loads(l) for l in (VERIF / "properties.jsonl").read_text().splitlines() if l.strip()]
